@@ -243,16 +243,27 @@ def zero_paths(ctx, world):
         ctx.fail("A13.align", "def_linear", "autograd.core.def_linear", loc_of(m, node), "def_linear's rule is not fun(*subval(args, argnum, g), **kwargs)", "a linear primitive differentiated w.r.t. its second argument or called with keyword options")
 
 
-def _rule_dict(sc):
+def _rule_dict(sc, ev=None, structure=False):
     """the dictionary of translated rules built by defvjp / defjvp: a dict comprehension / loop-built dict (comp
-    normal form) or dict(zip(keys, values)); returns the term (identity is what dispatchers capture) or None"""
+    normal form) or dict(zip(keys, values)), written in place or returned by a module-level helper that is called
+    with the pieces; returns the variable's term (identity is what dispatchers capture) - or, with structure=True,
+    the dictionary term itself (the helper's body with its parameters bound) - or None"""
+
+    def is_dict(v_):
+        if v_.op == "comp" and v_.get("kind") == "DictComp":
+            return True
+        return is_call_to(v_, "builtins.dict") and len(v_.args) == 1 and not v_.kw and (is_call_to(v_.args[0], "builtins.zip") or v_.args[0].op == "comp")
+
     for v_ in sc.vars.values():
         if v_ is None:
             continue
-        if v_.op == "comp" and v_.get("kind") == "DictComp":
+        if is_dict(v_):
             return v_
-        if is_call_to(v_, "builtins.dict") and len(v_.args) == 1 and not v_.kw and (is_call_to(v_.args[0], "builtins.zip") or v_.args[0].op == "comp"):
-            return v_
+        if ev is not None and v_.op == "call" and v_.fn.op == "ref" and v_.fn.ref.kind == "repo" and isinstance(getattr(v_.fn.ref, "node", None), ast.FunctionDef):
+            r_ = ev.inline(v_)
+            r_ = unseq(r_) if r_ is not None else None
+            if r_ is not None and is_dict(r_):
+                return r_ if structure else v_
     return None
 
 
@@ -1250,10 +1261,23 @@ def dispatch(ctx, world):
     q = "autograd.core.defvjp.vjp_argnums"
     argnums, ans, args, kw = (T("sym", name=n_, role="param") for n_ in ("argnums", "ans", "args", "kwargs"))
     r = ev.apply(clo_d, list(pre_d) + [argnums, ans, args, kw], dict(prekw_d), [])
-    vd = _rule_dict(osc)
+    vd = _rule_dict(osc, ev)
     if vd is None:
         raise AnalysisError("defvjp no longer builds a dictionary of translated rules")
+    # a rule dictionary built by a module-level helper is captured by the dispatchers as that call: the helper is kept
+    # un-inlined here so that the captured value keeps its identity (its body is decided by the rule-dict clause)
+    KEEP_D = set(KEEP)
+    for outer_ in ("defvjp", "defjvp"):
+        try:
+            osc_k = registered_closure(world, CORE, outer_, ".def" + outer_[3:] + "_argnums")[6]
+        except AnalysisError:
+            continue
+        dk = _rule_dict(osc_k, ev)
+        if dk is not None and dk.op == "call" and dk.fn.op == "ref":
+            KEEP_D.add(dk.fn.ref.qual)
     g = T("sym", name="g", role="g")
+    vd_x = unseq(expand(ev, vd, KEEP_D))
+    is_vd = lambda t: t is vd or t is vd_x or (vd.op == "call" and same(t, vd_x))
 
     def rule_call(t, idx_pred):
         """t == vjps_dict[<argnums[idx]>](ans, *args, **kwargs)(g)"""
@@ -1266,12 +1290,13 @@ def dispatch(ctx, world):
         if not (len(mk.args) == 2 and mk.args[0] is ans and mk.args[1].op == "star" and mk.args[1].x is args and len(mk.dstar) == 1 and mk.dstar[0] is kw):
             return False
         f = mk.fn
-        return f.op == "sub" and f.obj is vd and idx_pred(f.idx)
+        return f.op == "sub" and is_vd(f.obj) and idx_pred(f.idx)
 
-    def nth(i):
-        return lambda t: (t.op == "sub" and t.obj is argnums and t.idx.op == "const" and t.idx.value == i) or False
+    def nth(i, L=None):
+        # (on a path where len(argnums) == L is known, argnums[i - L] counted from the end is the same element)
+        return lambda t: (t.op == "sub" and t.obj is argnums and t.idx.op == "const" and type(t.idx.value) is int and (t.idx.value == i or (L is not None and t.idx.value == i - L))) or False
 
-    r = unseq(expand(ev, r, KEEP)) if r is not None else None
+    r = unseq(expand(ev, r, KEEP_D)) if r is not None else None
     checked = 0
     len_atom = lambda a: a.op == "cmp" and a.opname == "Eq" and ((is_call_to(a.l, "builtins.len") and a.l.args[0] is argnums and a.r.op == "const") or (is_call_to(a.r, "builtins.len") and a.r.args[0] is argnums and a.l.op == "const"))
     len_val = lambda a: a.r.value if a.r.op == "const" else a.l.value
@@ -1288,7 +1313,7 @@ def dispatch(ctx, world):
         if br.op != "closure":
             ctx.fail("A13.align", "defvjp:dispatch", f"{q}:dispatch", loc, f"a path of vjp_argnums does not return a vjp function (found {str(br)[:80]})", "any primitive with a defvjp rule")
             continue
-        res = unseq(expand(ev, ev.apply(br, [g], {}, []), KEEP))
+        res = unseq(expand(ev, ev.apply(br, [g], {}, []), KEEP_D))
         if L is not None:
             if L in seen_L:
                 continue
@@ -1296,7 +1321,7 @@ def dispatch(ctx, world):
             ok = res.op == "tuple" and len(res.elts) == L
             if ok:
                 for i, el in enumerate(res.elts):
-                    ok = ok and rule_call(el, nth(i))
+                    ok = ok and rule_call(el, nth(i, L))
             checked += 1
             if ok:
                 ctx.ob("A13.align", f"defvjp: fast path L=={L} returns (vjps_dict[argnums[i]](ans,*args,**kwargs)(g) for i in order)", True, loc)
@@ -1317,7 +1342,7 @@ def dispatch(ctx, world):
                     src = rs.src
                     if src.op == "comp" and src.src is argnums and not src.conds:
                         mk = src.elt
-                        ok = mk.op == "call" and mk.fn.op == "sub" and mk.fn.obj is vd and mk.fn.idx.op == "iterelem" and mk.fn.idx.src is argnums and len(mk.args) == 2 and mk.args[0] is ans and mk.args[1].op == "star" and mk.args[1].x is args and len(mk.dstar) == 1 and mk.dstar[0] is kw and src.get("kind") == "ListComp"
+                        ok = mk.op == "call" and mk.fn.op == "sub" and is_vd(mk.fn.obj) and mk.fn.idx.op == "iterelem" and mk.fn.idx.src is argnums and len(mk.args) == 2 and mk.args[0] is ans and mk.args[1].op == "star" and mk.args[1].x is args and len(mk.dstar) == 1 and mk.dstar[0] is kw and src.get("kind") == "ListComp"
             checked += 1
             if ok:
                 ctx.ob("A13.align", "defvjp: generic path maps argnums in order through vjps_dict (rules built once, as a list)", True, loc)
@@ -1331,7 +1356,8 @@ def dispatch(ctx, world):
         rr, sy, m2, fn, scd = eval_function(world, CORE, fname)
         kwv, mk_s, fun_s = sy[fn.args.kwarg.arg] if fn.args.kwarg else None, sy[fn.args.vararg.arg] if fn.args.vararg else None, sy[fn.args.args[0].arg]
         kwonly = [sy[a_.arg] for a_ in fn.args.kwonlyargs]
-        d = _rule_dict(scd)
+        d = _rule_dict(scd, world.ev, structure=True)
+        d = unseq(expand(ev, d, KEEP)) if d is not None else None  # (helpers that select the argnums option inlined)
         is_count = lambda c: is_call_to(c, "itertools.count") and not c.args and not c.kw
 
         def is_argnums(t):
@@ -1388,7 +1414,7 @@ def dispatch(ctx, world):
             an = T("sym", name="argnums", role="param")
             star_args = T("sym", name="args", role="param", star=True)
             r = ev.apply(clo3, list(pre3) + [an, T("star", x=star_args)], dict(prekw3), [])
-        r = unseq(expand(ev, r, KEEP)) if r is not None else None
+        r = unseq(expand(ev, r, KEEP_D)) if r is not None else None
         if kind in ("dict", "maker"):
             # the sum, by add_outgrads from None, of one term per (argnum, g) of zip(argnums, gs): written with
             # sum_outgrads(<generator>), functools.reduce, or an accumulation loop (fold normal form)
@@ -1408,8 +1434,9 @@ def dispatch(ctx, world):
                 e_an = lambda t: t.op == "sub" and _e_src(t.obj) and t.idx.op == "const" and t.idx.value == 0
                 e_g = lambda t: t.op == "sub" and _e_src(t.obj) and t.idx.op == "const" and t.idx.value == 1
                 if kind == "dict":
-                    jd = _rule_dict(osc3)
-                    ok = zok and el.op == "call" and el.fn.op == "sub" and el.fn.obj is jd and e_an(el.fn.idx) and len(el.args) == 3 and e_g(el.args[0]) and el.args[1] is a_ and el.args[2].op == "star" and el.args[2].x is ar and len(el.dstar) == 1 and el.dstar[0] is kw_
+                    jd = _rule_dict(osc3, ev)
+                    jd_x = unseq(expand(ev, jd, KEEP_D)) if jd is not None else None
+                    ok = zok and el.op == "call" and el.fn.op == "sub" and (el.fn.obj is jd or (jd is not None and jd.op == "call" and same(el.fn.obj, jd_x))) and e_an(el.fn.idx) and len(el.args) == 3 and e_g(el.args[0]) and el.args[1] is a_ and el.args[2].op == "star" and el.args[2].x is ar and len(el.dstar) == 1 and el.dstar[0] is kw_
                 else:
                     jm = osy3["#1"]
                     ok = zok and el.op == "call" and el.fn is jm and len(el.args) == 5 and e_an(el.args[0]) and e_g(el.args[1]) and el.args[2] is a_ and el.args[3] is ar and el.args[4] is kw_
@@ -1417,7 +1444,7 @@ def dispatch(ctx, world):
             vm = osy3["#1"]
             if r.op == "closure":
                 g2 = T("sym", name="g", role="g")
-                res = strip_seq(unseq(expand(ev, ev.apply(r, [g2], {}, []), KEEP)))
+                res = strip_seq(unseq(expand(ev, ev.apply(r, [g2], {}, []), KEEP_D)))
                 if res.op == "comp" and not res.conds:
                     el = strip_seq(res.elt)
                     if el.op == "call" and len(el.args) == 1 and el.args[0] is g2 and el.fn.op == "iterelem" and el.fn.src is res.src:
@@ -1533,7 +1560,7 @@ def raise_discipline(ctx, world):
             outer_name = path.split(".")[0]
             clo_, pre_, prekw_, osy_, m, outer_fn_, osc_, reg_ = registered_closure(world, modname, outer_name, ".defvjp_argnums" if outer_name == "defvjp" else ".defjvp_argnums")
             fn = clo_.fnode
-            dterm_ = _rule_dict(osc_)
+            dterm_ = _rule_dict(osc_, world.ev)
             dvar = next((nm_ for nm_, v_ in osc_.vars.items() if v_ is dterm_), None) if dterm_ is not None else None
             if dvar is not None:
                 table = dvar
@@ -1570,8 +1597,27 @@ def raise_discipline(ctx, world):
         lookups = []
         defaulting = []
         for fn_s, table_s in scopes:
+          # aliases of the raising accessor bound in this or an enclosing function: fetch = table.__getitem__
+          getters = set()
+          anc = fn_s
+          while anc is not None:
+              if isinstance(anc, (ast.FunctionDef, ast.Lambda, ast.Module)):
+                  for y in ast.walk(anc):
+                      if isinstance(y, ast.Assign) and len(y.targets) == 1 and isinstance(y.targets[0], ast.Name) and isinstance(y.value, ast.Attribute) and y.value.attr == "__getitem__":
+                          b_ = y.value.value
+                          if (b_.id if isinstance(b_, ast.Name) else (b_.attr if isinstance(b_, ast.Attribute) else None)) == table_s:
+                              getters.add(y.targets[0].id)
+              anc = getattr(anc, "_parent", None)
           for x in ast.walk(fn_s):
+            if getters and isinstance(x, ast.Name) and isinstance(x.ctx, ast.Load) and x.id in getters:
+                lookups.append(x)
             if isinstance(x, ast.Subscript) and isinstance(x.ctx, ast.Load):
+                base = x.value
+                nm = base.id if isinstance(base, ast.Name) else (base.attr if isinstance(base, ast.Attribute) else None)
+                if nm == table_s:
+                    lookups.append(x)
+            if isinstance(x, ast.Attribute) and x.attr == "__getitem__" and isinstance(x.ctx, ast.Load):
+                # table.__getitem__ (called directly or through an alias) is the same raising lookup as table[key]
                 base = x.value
                 nm = base.id if isinstance(base, ast.Name) else (base.attr if isinstance(base, ast.Attribute) else None)
                 if nm == table_s:
